@@ -3,7 +3,7 @@ from ._engine import engine_check
 
 
 def run(ctx):
-    return engine_check(ctx, "PropC12", [("confinement", 3000, 60000)],
+    return engine_check(ctx, "PropC12", [("confinement", 3000, 60000), ("boundary_races", 1500, 30000), ("declined_races", 1500, 30000)],
                         "run rejected by the monitor (C12: engine action outside its root, something outside a root changed, "
                         "or a boundary move not treated as delete/create)",
                         stream_b="C12", runner_name="run_confinement")
